@@ -344,6 +344,55 @@ def layout_suite(ctx, corr, plug, bs, vals, model):
         corr.count("layout", 1)
 
 
+def declaration_suite(ctx, corr):
+    """'no two values overlap, and lockable locations only exist in banks that have a lock byte' is ENFORCED
+    when a value is declared: in scratch banks of every kind (no lock byte, latch only, lock only, lock + latch)
+    a value that overlaps an existing one, or that declares a lockable location in a bank without a lock, must be
+    refused; the legal declarations must be accepted and appear in the bank's map."""
+    from dali.memory import location as L
+    n = 0
+    kinds = [("plain", dict()), ("latch-only", dict(has_latch=True)), ("lock-only", dict(has_lock=True)),
+             ("lock+latch", dict(has_lock=True, has_latch=True))]
+    for kname, kw in kinds:
+        for typ in L.MemoryType:
+            bank = L.MemoryBank(240, 0x20, **kw)
+            lockable = typ == L.MemoryType.NVM_RW_L
+            legal = (not lockable) or bool(kw.get("has_lock"))
+
+            def declare(addr_from, addr_to, t=typ, b=bank):
+                class Scratch(L.NumericValue):
+                    bank = b
+                    locations = L.MemoryRange(addr_from, addr_to, default=0, type_=t)
+                return Scratch
+            st, r = outcome(lambda: declare(0x05, 0x07))
+            desc = {"bank": kname, "type": str(typ), "declare": "3 locations 0x05..0x07"}
+            if legal and st != "ok":
+                corr.violate("layout:declare", desc, "accepted", r, "a legal declaration is refused")
+            if not legal and (st == "ok" or r != "LockingNotSupported"):
+                corr.violate("layout:declare-lockable", desc, "LockingNotSupported", "accepted" if st == "ok" else r,
+                             "a lockable location was declared in a bank that has no lock byte")
+            if legal and st == "ok":
+                ent = bank.locations.get(0x06)
+                if ent is None or ent.memory_value is not r:
+                    corr.violate("layout:declare", desc, "location 0x06 belongs to the new value", repr(ent))
+                # a second value over one of those locations, and over the bank's own header bytes
+                for a, b2 in ((0x07, 0x08), (0x04, 0x05), (0x00, 0x00)) + (((0x02, 0x02),) if kw else ()):
+                    st2, r2 = outcome(lambda: declare(a, b2, t=L.MemoryType.ROM))
+                    if st2 == "ok" or r2 != "MemoryLocationOverlap":
+                        corr.violate("layout:declare-overlap", dict(desc, second="0x%02x..0x%02x" % (a, b2)),
+                                     "MemoryLocationOverlap", "accepted" if st2 == "ok" else r2,
+                                     "two values share a location")
+            n += 1
+    corr.count("declaration", n)
+
+
+def outcome(thunk):
+    try:
+        return "ok", thunk()
+    except Exception as e:  # noqa
+        return "err", type(e).__name__
+
+
 def correspond(ctx, corr):
     if not ctx.model_available:
         raise RuntimeError("m_memval not built")
@@ -361,6 +410,7 @@ def correspond(ctx, corr):
     if listed != ["%s/%s" % (d["bank"], d["name"]) for _c, d in vals]:
         corr.disagree("value-list", "values", listed, "differs from the import in this process")
     layout_suite(ctx, corr, plug, bs, vals, model)
+    declaration_suite(ctx, corr)
     interp_suite(ctx, corr, plug, vals, model)
     inverse_suite(ctx, corr, plug, vals, model)
     corr.exhaustive["interpret: every value of width 1 and 2, all raw strings"] = True
